@@ -182,6 +182,9 @@ def facing(x, d, wr):
     return 0 <= c < wr
 
 
+MC_RAISED = {"n": 0}
+
+
 def gen_full_case(rng, source=None, big=False):
     source = source or rng.choice(["synthetic", "synthetic", "sad", "sad", "census"])
     subpix = rng.choice([1, 1, 2, 4])
@@ -236,7 +239,13 @@ def gen_full_case(rng, source=None, big=False):
         dmax = dmin + rng.randrange(0, 3 if subpix > 1 else 4)
         left = ad.make_image(imL, mskL)
         right = ad.make_image(imR, mskR)
-        _, cvds = ad.matching_cost_cv(left, right, dmin, dmax, source, window, subpix)
+        try:
+            _, cvds = ad.matching_cost_cv(left, right, dmin, dmax, source, window, subpix)
+        except Exception:  # pylint: disable=broad-except
+            # the matching-cost step itself refuses / crashes on some interval-vs-width combinations (not C11's
+            # subject): fall back to a synthetic volume, and say so in the evidence
+            MC_RAISED["n"] += 1
+            return gen_full_case(rng, source="synthetic", big=big)
         off_real = int(cvds.attrs["offset_row_col"])
         case["off"] = off_real
         data = cvds["cost_volume"].data
@@ -300,7 +309,12 @@ def check_arms(ctx, report, case, label, rule):
     H, W, dist = case["H"], case["W"], case["dist"]
     inten = frac(case["intensity"])
     image = [[None if v is None else float(Fraction(v)) for v in r] for r in case["image"]]
-    impl = ad.cross_support(image, dist, float(inten))
+    try:
+        impl = ad.cross_support(image, dist, float(inten))
+    except Exception as exc:  # pylint: disable=broad-except
+        report.case(key=("arms", json.dumps(case, sort_keys=True)), nontrivial=True)
+        fail(report, "arms", f"raises_{type(exc).__name__}", case, None, f"cross_support raised {type(exc).__name__}: {exc}")
+        return
     impl_l = impl.tolist()
     m = ctx.lean.call("C11.cross_support", H=H, W=W, dist=dist, intensity=core.enc(inten), rule=rule,
                       image=[[wire_val(v) for v in r] for r in case["image"]], impl=impl_l)
@@ -328,7 +342,12 @@ def check_steps(ctx, report, case, label):
     cv = np.array([[np.nan if v is None else float(v) for v in r] for r in case["cv"]], dtype=np.float32).reshape(H, W)
     aL = np.array(case["armsL"], dtype=np.int16).reshape(H, W, 4)
     aR = np.array(case["armsR"], dtype=np.int16).reshape(H, case["Wr"], 4)
-    impl = ad.steps(cv, aL, aR, float(d))
+    try:
+        impl = ad.steps(cv, aL, aR, float(d))
+    except Exception as exc:  # pylint: disable=broad-except
+        report.case(key=("steps", json.dumps(case, sort_keys=True)), nontrivial=True)
+        fail(report, "sum_over_region", f"raises_{type(exc).__name__}", case, None, f"cbca steps raised {type(exc).__name__}: {exc}")
+        return
     m = ctx.lean.call("C11.steps", H=H, W=W, Wr=case["Wr"], d=core.enc(d), cv=[[wire_val(v) for v in r] for r in case["cv"]],
                       armsL=case["armsL"], armsR=case["armsR"])
     report.case(key=("steps", json.dumps(case, sort_keys=True)), nontrivial=True,
@@ -388,7 +407,12 @@ def check_full(ctx, report, case, label, rule, independence=False, direct=False)
     right = ad.make_image(case["imR"], case["mskR"])
     cv_in = cv_array(case)
     cvds = ad.make_cv(cv_in, [float(d) for d in disp], case["subpix"], off)
-    out, cl, cr = ad.aggregate(left, right, cvds, dist, float(inten))
+    try:
+        out, cl, cr = ad.aggregate(left, right, cvds, dist, float(inten))
+    except Exception as exc:  # the real code raised on a well-formed input: no aggregated cost at all  # pylint: disable=broad-except
+        report.case(key=("full", json.dumps(case, sort_keys=True)), nontrivial=True)
+        fail(report, "sum_over_region", f"raises_{type(exc).__name__}", case, None, f"cost_volume_aggregation raised {type(exc).__name__}: {exc}")
+        return
     payload = full_payload(case, rule)
     m = ctx.lean.call("C11.aggregate", implL=cl.tolist(), implR=[c.tolist() for c in cr], **payload)
     h, w = m["h"], m["w"]
@@ -478,7 +502,11 @@ def check_full(ctx, report, case, label, rule, independence=False, direct=False)
                     cv2[:, :, k] = cv2[::-1, ::-1, k]
                 else:
                     cv2[off:H - off, off:W - off, k] = np.float32(rng.randrange(0, 90))
-        out2, _, _ = ad.aggregate(left, right, ad.make_cv(cv2, [float(d) for d in disp], case["subpix"], off), dist, float(inten))
+        try:
+            out2, _, _ = ad.aggregate(left, right, ad.make_cv(cv2, [float(d) for d in disp], case["subpix"], off), dist, float(inten))
+        except Exception as exc:  # pylint: disable=broad-except
+            fail(report, "plane_independent", f"raises_{type(exc).__name__}", case, None, f"re-run raised {exc}")
+            return
         report.hit("plane_independent")
         a, b = out[:, :, keep], out2[:, :, keep]
         if not np.array_equal(a, b, equal_nan=True):
@@ -544,20 +572,23 @@ def run(ctx, report, status):
         check_case(ctx, report, case.get("input", case), "corpus:" + name, rule, independence=True)
     for case in directed_arms():
         check_arms(ctx, report, case, "directed", rule)
-    for _ in range(ctx.n(250, 4000)):
+    for _ in range(ctx.n(300, 10000)):
         check_arms(ctx, report, gen_arms_case(rng, big=ctx.thorough), "rnd", rule)
-    for _ in range(ctx.n(120, 2000)):
+    for _ in range(ctx.n(150, 5000)):
         check_steps(ctx, report, gen_steps_case(rng), "rnd")
-    n_full = ctx.n(70, 900)
+    n_full = ctx.n(110, 3500)
     for i in range(n_full):
         case = gen_full_case(rng, big=ctx.thorough and i % 3 == 0)
         check_full(ctx, report, case, "rnd", rule, independence=(i % 3 == 0), direct=(i % 10 == 0))
+    if MC_RAISED["n"]:
+        report.count("matching_cost_raised_fallback_to_synthetic", MC_RAISED["n"])
+    # the replay of a violation should not be cluttered by the known finding F9: report a failing input with
+    # cbca_distance >= 2 first when there is one (stable sort)
+    report.failures.sort(key=lambda f: 1 if isinstance(f["case"], dict) and f["case"].get("dist") == 1 else 0)
     if ctx.thorough:  # a strip crossing the 100-pixel chunk of the median pre-filter
         for _ in range(3):
-            case = gen_full_case(rng, source="synthetic")
-            if case["W"] < 60:
-                wide = gen_wide_case(rng)
-                check_full(ctx, report, wide, "wide", rule)
+            check_full(ctx, report, gen_wide_case(rng), "wide", rule)
+            report.count("full_wide_104_columns")
 
 
 def gen_wide_case(rng):
@@ -620,4 +651,4 @@ def replay(ctx, report, path):
     for d in report.disagreements[:5]:
         print("disagreement:", json.dumps(d, default=str)[:600])
     print("replayed: failures=%d (known %d) disagreements=%d" % (len(report.failures), len(report.failures) - len(unknown), len(report.disagreements)))
-    return 1 if report.failures else 0
+    return 1 if unknown else 0  # exit 1 iff a failure that is not a listed known finding reproduces
